@@ -36,7 +36,9 @@ META = {
         "'-', duplicates of published names, the same name twice, two and three successive load calls, and grouped "
         "registration of a whole family together with all 135 published names. unknown.*: near-miss words (name + "
         "word character, name minus last character, lower case, prefixed) with/without PHOTOS and parameters must make "
-        "parse() raise, with a defined-ModelAlias control. Not covered: names outside letters, digits, '_' and '-'; "
+        "parse() raise, with a defined-ModelAlias control. boundary: a model name followed by a LABEL character that is not a "
+        "letter, digit or '_' (registered names ending in '-', labels NAME-Xc next to registered NAME-X and NAME, unknown words "
+        "NAME-x NAME+ NAME.5 NAME(1) NAME' NAME* NAME/x NAME~). Not covered: names outside letters, digits, '_' and '-'; "
         "registering after the grammar has been loaded."),
     "assumptions": ["X-LARK", "P-KW no label equals a grammar keyword", "P-ALIAS"],
     "trusted_base": ["specs/decrel.py (renderer, expected tables)"],
@@ -94,8 +96,9 @@ def _work(chunk):
         if len(out["failures"]) >= 2:
             continue
 
-        def fails(st, case=case):
-            return evaluate(dict(case, stmts=st)) is not None
+        def fails(st, case=case, raised=(" raised " in msg)):
+            m = evaluate(dict(case, stmts=st))
+            return m is not None and (" raised " in m) == raised
         small = R.minimise_stmts(case["stmts"], fails, budget=40, line_budget=25) if not case["expect_raises"] else case["stmts"]
         c2 = {"stmts": small, "calls": case.get("calls") or [], "expect_raises": case["expect_raises"], "text": R.render(small)}
         out["failures"].append(dict(function=case["function"], clause=case["clause"], what=evaluate(c2) or msg, input=c2,
@@ -280,6 +283,7 @@ def boundary_cases(tier):
 
 def run(tier="quick", seed=0):
     t0 = time.time()
+    seed = seed if tier == "thorough" else 0      # VERIF_SEED only matters in the thorough tier (README)
     rng = random.Random(seed)
     n_pub = len(_published())
     fams = [
